@@ -868,12 +868,15 @@ theorem accEnum_adj (f : Nat) (t c : Str) (htag : it.attr.tag = some t) (hcon : 
 
 include hiu hvu hnd hmem hsk in
 theorem accEnum_int (f : Nat) (t : Str) (htag : it.attr.tag = some t) (hcon : it.attr.content = none) (kvs : List (Str × JVal))
-    (hl : JVal.lookup t kvs = some (.str (Serde.variantKey cfg it.attr.renameAll var))) :
+    (hl : JVal.lookup t kvs = some (.str (Serde.variantKey cfg it.attr.renameAll var))) (hsh : var.unitLike = true ∨ var.shape = .named) :
     accEnum cfg env (f + 1) it [] (.obj kvs) =
-      (if var.unitLike then 0 else if var.shape = .named then accNamed cfg env f [] (Serde.renameAllS it var) var.fields kvs else 3) := by
+      (if var.unitLike then 0 else accNamed cfg env f [] (Serde.renameAllS it var) var.fields kvs) := by
   simp only [accEnum]
   rw [live_untagged_nil it hiu hvu, live_tagged_all it hiu hvu]
   simp only [List.foldl_nil, Derive.tagged, hiu, htag, hcon, hl, live_find cfg it var hnd hmem hsk]
+  rcases hsh with h | h
+  · simp [h]
+  · simp [h]
 
 end
 
@@ -1466,7 +1469,7 @@ theorem gVariant (cfg : Cfg) (env : Env) (hF : deFragB cfg env = true) : ∀ {A 
       refine Good.congr (Good.shift (Good.const (Nat.zero_le 1))) (fun f => ?_)
       cases f with
       | zero => simp [accEnum]
-      | succ f' => rw [accEnum_int cfg env it var hiu hvu hnd hvm hsk f' t htag hcon kvs hl]; simp [hu]
+      | succ f' => rw [accEnum_int cfg env it var hiu hvu hnd hvm hsk f' t htag hcon kvs hl (Or.inl hu)]; simp [hu]
     · -- internally tagged struct variant
       have hB' := hB
       rw [hs] at hB'
@@ -1481,8 +1484,8 @@ theorem gVariant (cfg : Cfg) (env : Env) (hF : deFragB cfg env = true) : ∀ {A 
       cases f with
       | zero => simp [accEnum]
       | succ f' =>
-        rw [accEnum_int cfg env it var hiu hvu hnd hvm hsk f' t htag hcon kvs hl, ← hra hs]
-        simp [hu, hs]
+        rw [accEnum_int cfg env it var hiu hvu hnd hvm hsk f' t htag hcon kvs hl (Or.inr hs), ← hra hs]
+        simp [hu]
   | _, _, .obj (.absent (k := k1) _ ho _) _, it, var, hA, hmem, hvm, _, _, _ => by
     obtain ⟨_, hiu, _, hvs, _, _, _, _, _⟩ := frag_item cfg env hF it hmem
     rcases variantTs_cases cfg env it var _ hA (hvs var hvm).1 hiu with ⟨_, _, h⟩ | ⟨_, _, C, _, h⟩ | ⟨t, c, _, _, _, h⟩ | ⟨t, c, _, _, _, C, _, h⟩ | ⟨t, _, _, _, h⟩ | ⟨t, _, _, _, hs, hB⟩
